@@ -62,3 +62,21 @@ Definition verdict_c04_order (c : pcase) : nat :=
        | Some tx => if kf_td_under_union tx then 5 else 2
        | None => 2
        end.
+
+(* ---- C06, the limit at merge time: types recorded under limit k1 (as stored traces are) merged under limit k2 (as
+        stub generation does when the configuration changed in between).  Theorem td_merge_top_limit: a merge of
+        top-level TypedDicts never builds a TypedDict with more than k2 fields. ---- *)
+Record m2case := M2Case { m2k1 : nat; m2k2 : nat; m2vs : list value; m2impl : ty }.
+Definition td_top_size (t : ty) : nat :=
+  match t with TTypedDict r o => List.length r + List.length o | _ => 0 end.
+Definition verdict_c06_merge (c : m2case) : nat :=
+  if negb (forallb wf_valueb (m2vs c)) then 3 else
+  match mapM (get_type (m2k1 c)) (m2vs c) with
+  | None => 3
+  | Some ts =>
+    if forallb is_td ts && Nat.ltb (m2k2 c) (td_top_size (m2impl c)) then 2
+    else match shrink_top (m2k2 c) ts with
+         | Some t => if corrb t (m2impl c) then 0 else 1
+         | None => 1
+         end
+  end.
